@@ -127,6 +127,101 @@ def check_string(ctx: Ctx, stream: str, i: int, subs: str, rng, force=None) -> N
              sample={'subscripts': subs, 'transposed': got if accepted else st})
 
 
+def check_pytree(ctx: Ctx, i: int, rng) -> None:
+    """the operator on a PYTREE of leaves: one shared block array applied to every leaf, or one block array per leaf
+    (`mv` has three branches: bare leaf, shared blocks, tree of blocks); value, structure and adjoint per leaf
+    against numpy.einsum"""
+    from furax._base.dense import DenseBlockDiagonalOperator as Dense
+    subs = rng.choice(['ij...,j...->i...', 'ji...,j...->i...', 'kij...,kj...->ki...', 'ikj,kj->ki', 'ij,j...->i...',
+                       '...ij,...j->...i'])
+    L, R, O = subs.replace('->', ',').split(',')
+    kind = rng.choice(['list', 'tuple', 'dict', 'nested'])
+    nleaf = rng.randint(1, 3)
+    shared = rng.random() < 0.5
+    per_leaf_ell = not shared or '...' not in L or rng.random() < 0.5
+
+    def mk(shape, lo=-2, hi=3):
+        return np.array([rng.randint(lo, hi) for _ in range(int(np.prod(shape)))], dtype=np.float64).reshape(shape)
+    ells = [rng.choice(ELLS[:6]) if '...' in R else () for _ in range(nleaf)]
+    if shared and '...' in L and not per_leaf_ell:
+        ells = [ells[0]] * nleaf
+    xs = [mk(shapes_for(R, True, e)) for e in ells]
+    if shared:
+        bell = () if ('...' not in L or per_leaf_ell) else ells[0]
+        bl = [mk(shapes_for(L, True, bell))] * nleaf
+    else:
+        bl = [mk(shapes_for(L, True, e if rng.random() < 0.6 else ())) for e in ells]
+    if any(b.ndim < 2 for b in bl):
+        return
+
+    def pack(vals):
+        if kind == 'list':
+            return list(vals)
+        if kind == 'tuple':
+            return tuple(vals)
+        if kind == 'dict':
+            names = ['q', 'a', 'm'][:len(vals)]          # unsorted insertion order: JAX sorts the keys
+            return dict(zip(names, vals))
+        return {'z': list(vals[:1]), 'b': tuple(vals[1:])}
+    xdt = rng.choice([jnp.float32, jnp.float32, jnp.int32])
+    x = pack([jnp.asarray(v, dtype=xdt) for v in xs])
+    blocks = jnp.asarray(bl[0], dtype=jnp.float32) if shared else pack([jnp.asarray(b, dtype=jnp.float32) for b in bl])
+    instruct = jax.tree.map(lambda a: jax.ShapeDtypeStruct(a.shape, a.dtype), x)
+    cfg = {'subscripts': subs, 'container': kind, 'leaves': [v.shape for v in xs], 'blocks': 'shared' if shared else
+           [b.shape for b in bl], 'leaf_dtype': str(np.dtype(xdt))}
+    want = pack([np.einsum(subs, b, v) for b, v in zip(bl, xs)])
+    sto, op = safe(lambda: Dense(blocks, instruct, subs))
+    if sto != 'ok':
+        ctx.fail('pytree', i, f'einsum-pytree-ctor-raises:{sto}', f'{subs!r} on a {kind} of {nleaf} leaves: {str(op)[:120]}', cfg)
+        ctx.case(f'{subs}:{kind}:{nleaf}:{shared}', True)
+        return
+    stm, y = safe(op.mv, x)
+    ok = stm == 'ok' and jax.tree.structure(y) == jax.tree.structure(want)
+    if ok:
+        for a, b in zip(jax.tree.leaves(y), jax.tree.leaves(want)):
+            ok = ok and np.asarray(a).shape == b.shape and np.allclose(np.asarray(a), b, rtol=1e-6, atol=1e-6)
+    if not ok:
+        ctx.fail('pytree', i, 'einsum-pytree-mv-wrong', f'{subs!r} on a {kind} of {nleaf} leaves ({"shared blocks" if shared else "one block array per leaf"}): op.mv differs from numpy.einsum leaf by leaf ({stm})', cfg)
+    else:
+        sts, outs = safe(op.out_structure)
+        if sts != 'ok' or jax.tree.structure(outs) != jax.tree.structure(y) or any(
+                o.shape != np.asarray(a).shape or o.dtype != a.dtype for o, a in zip(jax.tree.leaves(outs), jax.tree.leaves(y))):
+            ctx.fail('pytree', i, 'einsum-pytree-structure', f'{subs!r}: out_structure() differs from what mv returns', cfg)
+        stt, mt = safe(lambda: gen.dense(op.T))
+        m = gen.dense(op)
+        if stt != 'ok':
+            ctx.fail('pytree', i, f'einsum-pytree-transpose-raises:{stt}', f'{subs!r}: op.T cannot be built/applied: {str(mt)[:120]}', cfg)
+        elif mt.shape != m.T.shape or not np.array_equal(mt, m.T):
+            ctx.fail('pytree', i, 'einsum-pytree-transpose-not-adjoint', f'{subs!r} on a {kind}: dense(op.T) is not dense(op).T', cfg)
+        # block-diagonal over the leaves: the dense matrix is the direct sum of the per-leaf matrices
+        off = 0
+        offo = 0
+        for b, v in zip(jax.tree.leaves(pack(bl)), jax.tree.leaves(pack(xs))):
+            one = gen.dense(Dense(jnp.asarray(b, dtype=jnp.float32), jax.ShapeDtypeStruct(v.shape, xdt), subs))
+            if not np.array_equal(m[offo:offo + one.shape[0], off:off + one.shape[1]], one):
+                ctx.fail('pytree', i, 'einsum-pytree-not-block-diagonal', f'{subs!r} on a {kind}: the dense matrix is not the direct sum of the per-leaf operators', cfg)
+                break
+            off += one.shape[1]
+            offo += one.shape[0]
+        ctx.count('pytree-checked')
+    ctx.case(f'{subs}:{kind}:{nleaf}:{shared}:{i % 7}', True, sample=cfg)
+
+
+def check_ctor(ctx: Ctx, i: int, rng) -> None:
+    """constructor validation: block arrays of rank < 2 are refused (ValueError), for a bare array and inside a tree"""
+    from furax._base.dense import DenseBlockDiagonalOperator as Dense
+    bad = rng.choice([(), (3,)])
+    tree = rng.random() < 0.5
+    b = jnp.zeros(bad, jnp.float32)
+    good = jnp.zeros((2, 3), jnp.float32)
+    blocks = [good, b] if tree else b
+    s = jax.ShapeDtypeStruct((3,), jnp.float32)
+    st, r = safe(lambda: Dense(blocks, [s, s] if tree else s))
+    if st != 'ValueError':
+        ctx.fail('ctor', i, 'einsum-ctor-accepts-low-rank-blocks', f'blocks of shape {bad} {"inside a list" if tree else ""}: constructor {st}', {'blocks_shape': bad, 'tree': tree})
+    ctx.case(f'ctor:{bad}:{tree}', True)
+
+
 MALFORMED = ['ij', 'ij,j', 'ij,j,k->i', 'ij->i', 'ij,j->i->k', ',->', 'ij,j->', 'ij,,j->i', '->ij,j']
 
 
@@ -156,3 +251,9 @@ def run(ctx: Ctx) -> None:
                 if ctx.want('default', k):
                     check_string(ctx, 'default', k, s, ctx.rng('default', k), force=(ell, bell))
                 k += 1
+    for i in range(120 if ctx.tier == 'quick' else 600):
+        if ctx.want('pytree', i):
+            check_pytree(ctx, i, ctx.rng('pytree', i))
+    for i in range(8):
+        if ctx.want('ctor', i):
+            check_ctor(ctx, i, ctx.rng('ctor', i))
